@@ -171,7 +171,19 @@ def run(tier, seed):
             # step-structure difference without breach is reported as spec drift, not as an alarm
             unexplained = [f for f in breach
                            if not (f["kind"] == "use-after-free" and f["point"] in SETTID and "C05-late-settid" in known)]
-            if unexplained or o["excl"] or (o["destroys"] > 0 and o["live"] > 0):
+            # (a value the as-is protocol destroys in this schedule but the crate keeps for ever, or destroys twice,
+            # is a breach of "exactly once" just as well)
+            # leak: no handle is left, the value was not destroyed during the schedule and not even after every
+            # registered live thread went through two more collection points (rcsched's settle phase) - while the
+            # as-is model (which predicts the known unregistered-queue leak by itself) destroys it
+            leaked = (o["live"] == 0 and o["destroys"] == 0 and o.get("drops_settled", 0) == 0
+                      and not (b["freed"] == 0 and b["total"] == 0))
+            if leaked or o["destroys"] > 1:
+                r.violation(f"real crate deviates from the as-is model: value destroyed {o['destroys']} times (and not by two further "
+                            f"merges of every live thread), the protocol destroys it {b['freed']} time(s) in this schedule; "
+                            f"first divergence {o['diverged']}",
+                            {"id": b["id"], "behaviour": b, "observed": o})
+            elif unexplained or o["excl"] or (o["destroys"] > 0 and o["live"] > 0):
                 r.violation(f"real crate deviates from the as-is model with a breach: {unexplained or breach} "
                             f"(predicted freed={b['freed']} uaf={b['uaf']!r} total={b['total']}; observed destroys={o['destroys']} live={o['live']})",
                             {"id": b["id"], "behaviour": b, "observed": o})
